@@ -358,6 +358,25 @@ def check_c09(pid, tier, replay=None):
     ax, _ = vlib.print_axioms("IsalVerif.GenProps.RollingTable", ["IsalVerif.GenProps.rollingTable_pinned"])
     okp = ax.get("IsalVerif.GenProps.rollingTable_pinned") is not None and not failed
     chk.oblige("lean:IsalVerif.GenProps.rollingTable_pinned (table of the current source = pinned table)", okp, str(ax))
+    # T-route: the 64-bit arithmetic of the step (scan loops, hash_fn, reset loop) re-translated from rolling_hash2.c
+    if not replay:
+        import gen_rollstep
+        try:
+            rrows = gen_rollstep.main([os.path.join(b, "src"), vlib.LEAN])
+            rerr = ""
+        except Exception as e:
+            rrows, rerr = [], str(e)[:300]
+        chk.oblige("translator: %d rolling-step programs -> Gen/RollStep.lean" % len(rrows), bool(rrows) and not rerr, rerr)
+        rthms = ["IsalVerif.GenProps.RollStep.all_canon", "IsalVerif.GenProps.RollStep.all_present", "IsalVerif.GenProps.RollStep.step_current",
+                 "IsalVerif.RollC.hashFn_eq", "IsalVerif.RollC.untilLoop_unfold", "IsalVerif.RollC.resetLoop_unfold",
+                 "IsalVerif.RollC.canonTest_val"]
+        rfailed = vlib.lean_obligations(chk, "IsalVerif.GenProps.RollStep", rthms) if rrows else [("gen_rollstep", rerr)]
+        chk.cov["roll_step"] = {"programs": [r[0] for r in rrows], "frames_as_today": [bool(r[1]) for r in rrows], "theorems": rthms}
+        for name, detail in rfailed:
+            chk.violation("Lean obligation no longer checks: %s" % name,
+                          {"kind": "obligation", "obligation": name, "detail": detail,
+                           "note": "the rolling-hash step of rolling_hash2.c (scan loops / hash_fn / reset) is no longer the proved one; "
+                                   "the implementation is searched by the correspondence sweep of this check"}, no_input=True)
     drv = vlib.harness_bin("drv_rolling", cflags=("-Wl,--wrap=_rolling_hash2_run_until",), libs=())
     if tier == "quick":
         nops, maxlen, seeds = 8000, 600, [chk.seed]
